@@ -380,9 +380,8 @@ def truncate(ctx):
         R.check(vs == ['min(bearer.att_mtu - 1, len(value) - request.value_offset)'] and sl == [('value', 'request.value_offset', 'request.value_offset + part_size')], rule, f'{SRV}.on_att_read_blob_request | part <= att_mtu - 1', 'blob part cut to att_mtu - 1 from the requested offset', f'blob part: size {vs}, slice {sl}', p.loc(rb))
 
 
-def indication_slot(ctx):
+def indication_slot(ctx, rule='C10.indication-slot'):
     R, p = ctx.r, ctx.p
-    rule = 'C10.indication-slot'
     srv = p.cls(SRV)
     if srv is None:
         R.bad(rule, SRV, f'anchor missing: {SRV}')
